@@ -168,7 +168,7 @@ def accountControlsAllSupplyWith (viaBank : Bool) (callerBal supplyRecord circul
    After the repair of `accountControlsAllSupply` (compare with `bankKeeper.GetSupply`,
    require it positive) set this to `true`; the theorems of `PvProofs.C12` cover both values.
    ====================================================================================== -/
-def supplyControlViaBank : Bool := false
+def supplyControlViaBank : Bool := true   -- repaired in /repo by a784a9d34
 
 def accountControlsAllSupply (callerBal supplyRecord circulating : Int) : Bool :=
   accountControlsAllSupplyWith supplyControlViaBank callerBal supplyRecord circulating
@@ -353,7 +353,7 @@ def acceptWith (keep : Bool) (g : Grant) (u : Use) : AcceptRes :=
    x/marker/types/authz.go:57) set this to `true`; every theorem of `PvProofs.C12` is
    stated for both values, nothing else needs to change.
    ====================================================================================== -/
-def keepAllowListOnUpdate : Bool := false
+def keepAllowListOnUpdate : Bool := true   -- repaired in /repo by 599e8c764
 
 /-- `MarkerTransferAuthorization.Accept` (authz.go:31) as the code stands. -/
 def accept (g : Grant) (u : Use) : AcceptRes := acceptWith keepAllowListOnUpdate g u
